@@ -164,6 +164,34 @@ pub fn run(report: &Report, thorough: bool) -> Evidence {
                 texts.push(format!("\u{0986}{}\u{09CD}\u{09A4}{}", c, v));
             }
         }
+        // long final syllables (the graph's length bound stops at five or six code points): conjuncts of three and four
+        // consonants, with a vowel sign and a chandrabindu, behind nothing / a consonant / a syllable
+        {
+            let cs = ['\u{0995}', '\u{09B7}', '\u{09AE}', '\u{09A4}', '\u{09A8}', '\u{09B8}'];
+            let mut conj: Vec<String> = vec![];
+            for &a in &cs {
+                for &b in &cs {
+                    for &c in &cs {
+                        conj.push(format!("{}\u{09CD}{}\u{09CD}{}", a, b, c));
+                        for &d in &cs[..3] {
+                            conj.push(format!("{}\u{09CD}{}\u{09CD}{}\u{09CD}{}", a, b, c, d));
+                        }
+                    }
+                }
+            }
+            for pre in ["", "\u{09B2}", "\u{0995}\u{09BE}"] {
+                for cj in &conj {
+                    for v in ["", "\u{09BE}", "\u{09BF}", "\u{09C0}", "\u{09CB}"] {
+                        for cb in ["", "\u{0981}"] {
+                            let t = format!("{}{}{}{}", pre, cj, v, cb);
+                            if reph_ref(&t).is_some() {
+                                texts.push(t);
+                            }
+                        }
+                    }
+                }
+            }
+        }
         par_for(
             64,
             1,
